@@ -54,6 +54,7 @@ type harnessResult struct {
 	Sat         int                    `json:"sat"`
 	Unsat       int                    `json:"unsat"`
 	Unknown     int                    `json:"unknown"`
+	Retried     int                    `json:"decided_by_fallback_solver"`
 	SolverS     float64                `json:"solver_s"`
 	WallS       float64                `json:"wall_s"`
 	Labels      map[string]*labelStat  `json:"assert_labels"`
@@ -92,7 +93,9 @@ func runHarness(ld *loaded, pkg *ssa.Package, hs harnessSpec, to tierOpts, known
 		opts.stepLimit = 2_000_000
 	}
 	if opts.timeoutMs == 0 {
-		opts.timeoutMs = 20000
+		// short first attempt: a query the primary solver does not decide quickly is retried on
+		// the other solvers (120 s each) before it is counted as inconclusive
+		opts.timeoutMs = 3000
 	}
 	if opts.maxFanout == 0 {
 		opts.maxFanout = 64
@@ -108,6 +111,7 @@ func runHarness(ld *loaded, pkg *ssa.Package, hs harnessSpec, to tierOpts, known
 	res.Paths, res.Pruned, res.Bound, res.UnknownP = sh.pathsDone, sh.pathsPruned, sh.pathsBound, sh.pathsUnknown
 	res.Decisions, res.Steps = sh.decisions, sh.steps
 	res.Queries, res.Sat, res.Unsat, res.Unknown, res.SolverS = sh.q, sh.qSat, sh.qUnsat, sh.qUnknown, sh.solverSecs
+	res.Retried = sh.qRetried
 	res.Labels, res.Reach, res.KnownHit = sh.labels, sh.reach, sh.knownHit
 	for f := range sh.funcs {
 		res.Funcs = append(res.Funcs, f)
@@ -222,7 +226,7 @@ func cmdCheck(args []string) int {
 	workers := fs.Int("workers", 16, "worker count")
 	verbose := fs.Bool("v", false, "verbose")
 	trace := fs.Bool("trace", false, "trace instructions")
-	solverName := fs.String("solver", "z3", "z3|z3-new|cvc5")
+	solverName := fs.String("solver", "z3-new", "z3-new (5.1.0, default) | z3 (4.8.12) | cvc5; the other two are the fall-back for inconclusive queries")
 	smtLog := fs.String("smtlog", "", "write worker 0's SMT-LIB dialogue to this file")
 	noNative := fs.Bool("no-native", false, "skip native replay/validation (debugging only; exit 2)")
 	cpuprof := fs.String("cpuprofile", "", "write CPU profile")
@@ -269,9 +273,12 @@ func cmdCheck(args []string) int {
 	switch *solverName {
 	case "z3-new":
 		g.solver = solverZ3New
+	case "z3":
+		g.solver = solverZ3
 	case "cvc5":
 		g.solver = solverCVC5
 	}
+	primarySolver = g.solver
 	known := loadKnown(verifDir)
 	var knownForProp []knownFinding
 	for _, k := range known {
@@ -318,8 +325,8 @@ func cmdCheck(args []string) int {
 			unitOf[hs.Func] = u
 			r := runHarness(ld, pkg, hs, to, knownForProp, g)
 			results = append(results, r)
-			fmt.Printf("harness %-40s paths=%d pruned=%d bound=%d queries=%d (sat %d unsat %d unknown %d) solver=%.1fs wall=%.1fs violations=%d\n",
-				hs.Func, r.Paths, r.Pruned, r.Bound, r.Queries, r.Sat, r.Unsat, r.Unknown, r.SolverS, r.WallS, len(r.Violations))
+			fmt.Printf("harness %-40s paths=%d pruned=%d bound=%d queries=%d (sat %d unsat %d unknown %d fallback %d) solver=%.1fs wall=%.1fs violations=%d\n",
+				hs.Func, r.Paths, r.Pruned, r.Bound, r.Queries, r.Sat, r.Unsat, r.Unknown, r.Retried, r.SolverS, r.WallS, len(r.Violations))
 			if r.Fatal != "" {
 				fmt.Printf("FATAL %s: %s\n", hs.Func, firstLines(r.Fatal, 40))
 			}
@@ -577,7 +584,7 @@ func writeEvidence(verifDir, id, tier string, seed int, spec *propSpec, results 
 			"harnesses":                     results,
 			"unreproduced_models":           unrepro,
 			"inconclusive":                  inconclusive,
-			"engine":                        "gose (go/ssa symbolic interpreter) + z3 4.8.12",
+			"engine":                        "gose (go/ssa symbolic interpreter) + " + primarySolver.String() +" (inconclusive queries retried on the other installed solvers)",
 		},
 	}
 	os.MkdirAll(filepath.Join(verifDir, "evidence"), 0o755)
